@@ -18,7 +18,7 @@ func init() {
 			"R1 the extracted table equals the GoogleSQL table (levels, tokens -> operator constants, associativity, right operand one level tighter, prefix operators recurse into their own level, comparison family non-associative with operands and BETWEEN bounds at the bitwise-or level). " +
 			"R2 exprPrec (the printer's table, read from its type/constant switch) is order-isomorphic to the parser levels for every operator, and for every paren(p, x.F) call the types/operators that can flow into x.F (VALUE analysis of the parser) have exprPrec <= p, so SQL() never adds a parenthesis to a parser-built tree. " +
 			"R3 every ParenExpr wraps exactly the value returned by parseExpr and the function consuming '(' expr ')' never returns the inner expression unwrapped.",
-		Rules: []ruleFn{ruleC07R1, ruleC07R2, ruleC07R3},
+		Rules: []ruleFn{ruleC07R1, ruleC07R2, ruleC07R3, ruleC07R4},
 	})
 }
 
@@ -664,4 +664,60 @@ func onlyAllocs(v ssa.Value, seen map[ssa.Value]bool) bool {
 		return true
 	}
 	return false
+}
+
+// ruleC07R4: the printer's table is complete for the expression node types and puts every operand form that no
+// precedence level of the parser produces (literals, names, calls, parenthesised and bracketed forms) at the tightest
+// value: paren() then never wraps it, and exprPrec never reaches its fall-through.
+func ruleC07R4(w *World, r *Report) {
+	const rule = "C07/R4"
+	r.rule(rule, "every struct type implementing ast.Expr (except the Bad* placeholders) has its own entry in exprPrec; the types that no precedence level of the parser produces (atoms) all carry the smallest precedence value, so paren() never adds parentheses around them", 40)
+	pt, err := w.readExprPrec()
+	if pt == nil {
+		r.errorf("%s", err)
+		return
+	}
+	exprObj := w.Ast.Types.Scope().Lookup("Expr")
+	if exprObj == nil {
+		r.errorf("ast.Expr not found")
+		return
+	}
+	exprIfc, _ := exprObj.Type().Underlying().(*types.Interface)
+	if exprIfc == nil {
+		r.errorf("ast.Expr is not an interface")
+		return
+	}
+	levelType := map[string]bool{"BinaryExpr": true, "UnaryExpr": true}
+	for _, l := range w.extractLevels(nil) {
+		for o := range l.others {
+			levelType[o] = true
+		}
+	}
+	var min int64
+	first := true
+	for _, v := range pt.value {
+		if first || v < min {
+			min, first = v, false
+		}
+	}
+	for _, ns := range w.Catalog().Structs {
+		if !types.Implements(types.NewPointer(ns.Named), exprIfc) || strings.HasPrefix(ns.Name, "Bad") {
+			continue
+		}
+		construct := "exprPrec(*" + ns.Name + ")"
+		pc, listed := pt.byType[ns.Name]
+		_, byOp := pt.byOp[ns.Name]
+		switch {
+		case !listed && !byOp:
+			r.bad(rule, construct, pt.pos, "the type switch of exprPrec has no case for this expression type: its precedence is whatever the fall-through gives (a panic, or parentheses the source did not have)")
+		case levelType[ns.Name]:
+			r.ok(rule, construct, pt.pos, "listed (operator level type; order checked by C07/R2)")
+		case byOp:
+			r.bad(rule, construct, pt.pos, "an operand form that is not produced by any precedence level is given an operator-dependent precedence")
+		case pt.value[pc] != min:
+			r.bad(rule, construct, pt.pos, fmt.Sprintf("atom printed with precedence %s (%d), not the tightest value %d: paren() wraps it in parentheses under operators that bind tighter", pc, pt.value[pc], min))
+		default:
+			r.ok(rule, construct, pt.pos, "atom at the tightest precedence "+pc)
+		}
+	}
 }
